@@ -923,3 +923,93 @@ example : ¬ Bal [("(" : GTok)] := by
   exact absurd this (by decide)
 
 end DX
+
+namespace DX
+
+/-! ### every segment begins like an item
+
+Each generated segment starts with `#[automatically_derived] impl` (for the hidden `Eq` checker: with
+`const _: () = {` ) — it is an item, not a stray expression or a fragment. -/
+
+theorem strs_append (a b : GToks) : GToks.strs (a ++ b) = GToks.strs a ++ GToks.strs b := by simp [GToks.strs]
+
+def itemHead : List String := ["#", "[", "automatically_derived", "]"]
+
+/-- the segment starts with `#[automatically_derived]` or with `const _` -/
+def StartsLikeItem (ts : GToks) : Prop :=
+  (∃ rest, GToks.strs ts = itemHead ++ rest) ∨ (∃ rest, GToks.strs ts = "const" :: "_" :: rest)
+
+theorem autoDerived_strs : GToks.strs autoDerived = itemHead := by decide
+
+theorem prefix_append_left {p : List String} {a : GToks} (b : GToks) (h : ∃ rest, GToks.strs a = p ++ rest) :
+    ∃ rest, GToks.strs (a ++ b) = p ++ rest := by
+  obtain ⟨r, hr⟩ := h
+  exact ⟨r ++ GToks.strs b, by rw [strs_append, hr, List.append_assoc]⟩
+
+theorem starts_implItem (implG trait_ selfTy wheres body : GToks) :
+    StartsLikeItem (implItem autoDerived implG trait_ selfTy wheres body) := by
+  left
+  unfold implItem
+  simp only [gapp_eq, gcons_eq]
+  repeat' apply prefix_append_left
+  exact ⟨[], by rw [autoDerived_strs, List.append_nil]⟩
+
+theorem starts_ops (o : OpsImpl) : ∀ ts ∈ o.render, StartsLikeItem ts := by
+  intro ts hts
+  simp only [OpsImpl.render, List.mem_map] at hts
+  obtain ⟨⟨⟨l, r⟩, w⟩, hmem, rfl⟩ := hts
+  have hf := (List.of_mem_zip hmem).1
+  unfold OpsImpl.renderForm
+  cases hk : o.kind <;> simp only [hk, opForms, List.not_mem_nil] at hf ⊢
+  all_goals exact starts_implItem _ _ _ _ _
+
+theorem starts_clone (c : CloneImpl) : StartsLikeItem c.render := by unfold CloneImpl.render; exact starts_implItem _ _ _ _ _
+theorem starts_copy (c : CopyImpl) : StartsLikeItem c.render := by unfold CopyImpl.render; exact starts_implItem _ _ _ _ _
+theorem starts_debug (d : DebugImpl) : StartsLikeItem d.render := by unfold DebugImpl.render; exact starts_implItem _ _ _ _ _
+theorem starts_default (d : DefaultImpl) : StartsLikeItem d.render := by unfold DefaultImpl.render; exact starts_implItem _ _ _ _ _
+theorem starts_deref (d : DerefImpl) : StartsLikeItem d.render := by unfold DerefImpl.render; exact starts_implItem _ _ _ _ _
+
+theorem starts_cmp (c : CmpImpl) : ∀ ts ∈ c.render, StartsLikeItem ts := by
+  intro ts hts
+  unfold CmpImpl.render at hts
+  cases hop : c.op <;> rw [hop] at hts <;> simp only [List.mem_cons, List.not_mem_nil, or_false] at hts
+  all_goals
+    first
+    | (subst hts
+       left
+       simp only [gapp_eq, gcons_eq]
+       repeat' apply prefix_append_left
+       exact ⟨[], by decide⟩)
+    | (rcases hts with rfl | rfl
+       · left
+         simp only [gapp_eq, gcons_eq]
+         repeat' apply prefix_append_left
+         exact ⟨[], by decide⟩
+       · right
+         exact ⟨_, rfl⟩)
+
+theorem starts_fwd (f : FwdImpl) : ∀ ts ∈ f.render, StartsLikeItem ts := by
+  intro ts hts
+  simp only [FwdImpl.render, List.mem_map] at hts
+  obtain ⟨it, _, rfl⟩ := hts
+  cases it <;> (unfold FwdImpl.renderItem; exact starts_implItem _ _ _ _ _)
+
+theorem starts_genImpl (g : GenImpl) : ∀ ts ∈ g.render, StartsLikeItem ts := by
+  cases g with
+  | cmp c => exact starts_cmp c
+  | ops o => exact starts_ops o
+  | clone c => intro ts h; simp only [GenImpl.render, List.mem_cons, List.not_mem_nil, or_false] at h; subst h; exact starts_clone c
+  | copy c => intro ts h; simp only [GenImpl.render, List.mem_cons, List.not_mem_nil, or_false] at h; subst h; exact starts_copy c
+  | debug d => intro ts h; simp only [GenImpl.render, List.mem_cons, List.not_mem_nil, or_false] at h; subst h; exact starts_debug d
+  | dflt d => intro ts h; simp only [GenImpl.render, List.mem_cons, List.not_mem_nil, or_false] at h; subst h; exact starts_default d
+  | deref d => intro ts h; simp only [GenImpl.render, List.mem_cons, List.not_mem_nil, or_false] at h; subst h; exact starts_deref d
+
+/-- every impl an accepted, undumped entry yields starts like an item -/
+theorem entry_items_start_like_items (i : Nat) (e : Entry) (g : GenImpl) :
+    ∀ seg ∈ entrySegs i e (.ok g), ∃ ts, seg.body = .toks ts ∧ StartsLikeItem ts := by
+  intro seg hseg
+  simp only [entrySegs, List.mem_map] at hseg
+  obtain ⟨⟨ts, j⟩, hmem, rfl⟩ := hseg
+  exact ⟨ts, rfl, starts_genImpl g ts (fst_mem_of_mem_zipIdx _ _ _ hmem)⟩
+
+end DX
